@@ -2,7 +2,7 @@
  encapsulate : 19 usage shapes of `a.attr` (read, =, every augmented operator family, multi-line value, chain, call argument, comparisons, walrus,
                semicolons, comments, same-named keyword, del, other module, write on the last line without a trailing newline)
  factory     : IntroduceFactory (static and global) with clients importing the class in three styles, a client that contains the factory name in a string
- method_object, local_to_field, use_function (incl. slices with omitted bounds in another module)."""
+ method_object, local_to_field, use_function (incl. slices with omitted bounds in another module; functions with an early return, which must be refused)."""
 import os
 import shutil
 import subprocess
@@ -21,6 +21,14 @@ USES = {
     "semicolon": "a = A(); a.attr = 3; print(a.attr)\n", "write_then_comment": "a = A()\na.attr = 3  # set = it\nprint(a.attr)\n",
     "kwarg_same_name": "def f(attr=0): return attr\na = A()\nprint(f(attr=a.attr))\n", "del": "a = A()\ndel a.attr\nprint(hasattr(a, 'attr'))\n",
     "in_other_module": None, "last_line_write_no_newline": "OTHER",
+    # values that continue onto later lines WITHOUT an open bracket (round-3 seed C17/4): a triple-quoted string, a backslash
+    "write_triple_quoted": 'a = A()\na.attr = """first\nsecond"""\nprint(a.attr)\n', "write_backslash": "a = A()\na.attr = 1 + \\\n    2\nprint(a.attr)\n",
+    "write_triple_quoted_then_read": "a = A()\na.attr = '''x\n(y'''\nb = a.attr\nprint(b)\n",
+    # the same in a CLIENT module (the class module is then re-parsed without the client's text, so a broken client is written, not refused)
+    "client_triple_quoted": 'CLIENT:box.attr = """first\nsecond"""\nprint(box.attr)\nbox.attr += "!"\n',
+    "client_backslash": "CLIENT:box.attr = 1 + \\\n    2\nbox.attr *= 2\n",
+    "client_bracket_multiline": "CLIENT:box.attr = ', '.join([\n    'a',\n    'b',\n])\nprint(box.attr)\n",
+    "client_triple_quoted_paren": "CLIENT:box.attr = '''x\n(y'''\nprint(len(box.attr))\n",
 }
 
 
@@ -49,7 +57,12 @@ def run_case(case):
     try:
         p = Project(root, ropefolder=None)
         body = USES[key]
-        if body is None or body == "OTHER":
+        if body is not None and body.startswith("CLIENT:"):
+            p.root.create_file("mod.py").write(CLS)
+            p.root.create_file("client.py").write("from mod import A\nbox = A()\n" + body[len("CLIENT:"):])
+            p.root.create_file("main.py").write("import client\nprint(client.box.attr)\n")
+            res, off = p.get_file("mod.py"), CLS.index("attr")
+        elif body is None or body == "OTHER":
             p.root.create_file("mod.py").write(CLS)
             p.root.create_file("main.py").write("from mod import A\na = A()\na.attr += 2\nprint(a.attr)\n" if body is None
                                                 else "from mod import A\nbox = A()\nprint(box.attr)\n")
@@ -134,6 +147,21 @@ def _mk():
     out["use_function_expr"] = _scenario(
         "use_function_expr", {"mathutil.py": UF2, "main.py": "import mathutil\na, b = 3, 4\nprint(a * a, b * b, a * b, mathutil.square(2))\n"},
         lambda p: UseFunction(p, p.get_file("mathutil.py"), UF2.index("square")).get_changes())
+    # shapes that use-function must refuse (round-3 seed C17/5): an early return -- bare or with a value -- that is not the last statement
+    UF3 = "def report(value):\n    if not value:\n        return\n    print('value:', value)\n"
+    out["use_function_guard_clause"] = _scenario(
+        "use_function_guard_clause", {"reportutil.py": UF3, "main.py": "def show(item):\n    if not item:\n        pass\n    print('value:', item)\n\n\nshow(3)\nshow(0)\nshow('')\n"},
+        lambda p: UseFunction(p, p.get_file("reportutil.py"), UF3.index("report")).get_changes())
+    UF4 = "def first_or_zero(items):\n    if items:\n        return items[0]\n    print('empty')\n"
+    out["use_function_early_value_return"] = _scenario(
+        "use_function_early_value_return", {"firstutil.py": UF4, "main.py": "def f(xs):\n    if xs:\n        r = xs[0]\n    print('empty')\n\n\nf([1])\nf([])\n"},
+        lambda p: UseFunction(p, p.get_file("firstutil.py"), UF4.index("first_or_zero")).get_changes())
+    # a generator whose only yield sits inside its return statement must be refused as well (defect repaired by 2a6d446)
+    UF5 = "def relay(x):\n    return (yield x)\n"
+    out["use_function_yield_in_return"] = _scenario(
+        "use_function_yield_in_return", {"gens.py": UF5, "main.py": "import gens\n\n\ndef g(a):\n    got = (yield a)\n    print('got', got)\n\n\nit = g(1)\nprint(next(it))\n"
+                                                                   "try:\n    it.send(5)\nexcept StopIteration:\n    print('done')\n"},
+        lambda p: UseFunction(p, p.get_file("gens.py"), UF5.index("relay")).get_changes())
     return out
 
 
